@@ -333,7 +333,7 @@ impl<'a> Evaluator<'a> {
                     }
                     r
                 }
-                Val::Any => PatM::Unknown("slice pattern against unknown value".into()),
+                Val::Any | Val::Opaque(_) | Val::Sym(_) | Val::Str(_) => PatM::Unknown("slice pattern against a value that is not a modelled list".into()),
                 _ => PatM::No,
             },
             Pat::Lit(l) => match lit_val(&l.lit) {
@@ -1240,6 +1240,9 @@ impl<'a> Evaluator<'a> {
                 if full == "Vec::new" || full == "Vec::with_capacity" || full == "Vec::default" || full == "VecDeque::new" || full.starts_with("Vec::<") && (full.ends_with("::new") || full.ends_with("::with_capacity")) {
                     return Ok(Val::List(vec![]));
                 }
+                if ["u8::from", "u16::from", "u32::from", "u64::from", "u128::from", "usize::from", "i32::from", "i64::from", "i128::from"].contains(&full.as_str()) && args.len() == 1 && matches!(args[0], Val::Int { .. }) {
+                    return Ok(args.into_iter().next().unwrap());
+                }
                 if full == "String::with_capacity" {
                     return Ok(Val::Str(String::new()));
                 }
@@ -1936,6 +1939,10 @@ impl<'a> Evaluator<'a> {
                         Val::Bool(b) => b.to_string(),
                         _ => unreachable!(),
                     })),
+                    "as_bytes" | "bytes" | "into_bytes" if matches!(recv, Val::Str(_)) && mc.args.is_empty() => match recv {
+                        Val::Str(t) => Ok(Val::List(t.bytes().map(|b| Val::int(b as i128)).collect())),
+                        _ => unreachable!(),
+                    },
                     "into" | "clone" | "to_owned" | "as_ref" | "as_deref" | "to_string" | "as_str" | "copied" | "cloned" | "borrow" | "as_mut" | "into_iter" | "iter" | "iter_mut" | "to_vec" => Ok(recv),
                     // index arithmetic (the receiver is treated as unsigned: a negative difference is None / 0)
                     "checked_ilog10" | "ilog10" if matches!(recv, Val::Int { input: false, .. }) && mc.args.is_empty() => {
